@@ -62,6 +62,7 @@ type (
 		Elems []AV
 	}
 	Spread struct{ V AV } // all elements of a symbolic slice
+	MapV   struct{ M map[string]AV } // finite map with known entries (keyed by the key's rendering); other keys absent
 	Tuple  struct{ Vs []AV }
 	Top    struct{ Why string }
 	// Expr: uninterpreted operator application over abstract values (kept for dataflow)
@@ -108,6 +109,7 @@ func (s SliceV) String() string {
 	return "[" + strings.Join(xs, ", ") + "]"
 }
 func (s Spread) String() string { return s.V.String() + "..." }
+func (m MapV) String() string { return fmt.Sprintf("map[%d entries]", len(m.M)) }
 func (t Tuple) String() string {
 	var xs []string
 	for _, v := range t.Vs {
@@ -1008,6 +1010,25 @@ func (in *Interp) instrs(st *State, b, pred *ssa.BasicBlock, idx int, k kont) {
 		case *ssa.Lookup:
 			x := in.val(st, ins.X)
 			key := in.val(st, ins.Index)
+			if mv, ok := x.(MapV); ok {
+				kk := key
+				if d, isD := kk.(Dyn); isD {
+					kk = d.V
+				}
+				val, found := mv.M[kk.String()]
+				if !found {
+					val = Zero{ins.Type()}
+					if ins.CommaOk {
+						val = Zero{ins.Type().(*types.Tuple).At(0).Type()}
+					}
+				}
+				if ins.CommaOk {
+					in.set(st, ins, Tuple{[]AV{val, mkBool(found)}})
+				} else {
+					in.set(st, ins, val)
+				}
+				break
+			}
 			v := AV(Expr{Op: "lookup", Args: []AV{x, key}})
 			if ins.CommaOk {
 				in.set(st, ins, Tuple{[]AV{v, Expr{Op: "lookup.ok", Args: []AV{x, key}}}})
